@@ -5,6 +5,7 @@ Line-protocol driver for the C19 model (serde bridge).  Requests:
   de <STy> <Value>      → "ok <SVal>" | "err de"               T::deserialize(value)
   fmt <nf> <bits>=<hex>… <ns> <hexstr>=<hexdbg>… <Value>   → "ok <hex>"   `{{ v }}`
   ctx <SVal>            → "ok <n> <hexkey> <Value> …" | "err"  Context::from_serialize
+  reser <Value>         → "ok <Value>" | "err badkey"          Value::from_serializable(&value)
 
 Wire form of types:  bool i8 … u128 f32 f64 char string unit cstring unitstruct
   option T | seq T | tuple <n> T… | map K V | struct <n> (<hexname> T)… | newtype T
@@ -281,6 +282,13 @@ def handle (line : String) : String :=
         | none => "bad-args"
       | _ => "bad-args"
     | none => "bad-args"
+  | "reser" :: rest =>
+    match Wire.parseValue rest with
+    | some (x, []) =>
+      match ser (valueSer x) with
+      | .ok y => "ok " ++ Wire.showValue (canonValue y)
+      | .error _ => "err badkey"
+    | _ => "bad-value"
   | "ctx" :: rest =>
     match parseVal rest with
     | some (v, []) =>
